@@ -115,6 +115,9 @@ def random_history(rng, kind, nkeys, nvals, nops, p_fail=0.05, with_bad=False, t
         o = rng.choice(sorted(kinds))
         r = rng.random()
         k = rng.choice(hot) if rng.random() < 0.7 else rng.randint(1, nkeys)
+        if rng.random() < 0.015:
+            lines.append("assign %d %d" % (o, o))             # assigned from itself: as before
+            continue
         if getalias and present[o] and rng.random() < 0.05:
             lines.append("getalias %d %d" % (o, rng.choice(sorted(present[o]))))       # a value living inside the container used as a key
             continue
